@@ -229,3 +229,77 @@ Example C05_radix_nonvacuous :
    end) &&
   (length (rtrace no_scripts (regs ++ unregs) rinit) =? 134)%nat = true.
 Proof. vm_compute. reflexivity. Qed.
+
+(* ---- tie (a), round 9: the index arithmetic and the guards of the heap ARE the current C text of src/iv_timer.c
+   (Timer/HeapLink.v; Gen/LeafHeap.v is re-translated by gen/c2gallina.py on every run of this check) ---- *)
+From Ivv Require Import Base.CSem Gen.LeafHeap Timer.HeapLink.
+
+Theorem C05_pull_up_step_is_the_code :
+  forall f s i, 0 <= i < 2147483648 ->
+  HeapModel.pull_up (S f) s i =
+  match heap_pull_more i, heap_pull_parent i with
+  | Some more, Some parent =>
+      if more then
+        match HeapModel.get_node s parent with
+        | None => None
+        | Some s1 =>
+            match HeapModel.sget s1 parent, HeapModel.sget s1 i with
+            | Some tp, Some ti =>
+                if HeapModel.ptr_gt s1 tp ti then
+                  match heap_pull_next parent with Some nx => HeapModel.pull_up f (HeapModel.swap_slots s1 i parent ti tp) nx | None => None end
+                else Some s1
+            | _, _ => None
+            end
+        end
+      else Some s
+  | _, _ => None
+  end.
+Proof. exact pull_up_step_is_the_code. Qed.
+Print Assumptions C05_pull_up_step_is_the_code.
+
+Theorem C05_push_down_indices_are_the_code :
+  forall i n, 0 <= i < 1073741824 ->
+  heap_push_has_child i n = Some (2 * i <=? n) /\ heap_push_self i = Some i /\
+  heap_push_left i = Some (2 * i) /\ heap_push_right i = Some (2 * i + 1) /\ heap_push_node i = Some (2 * i).
+Proof. exact leaf_push_indices. Qed.
+Print Assumptions C05_push_down_indices_are_the_code.
+
+Theorem C05_push_down_overflow_is_in_the_code :
+  forall i n, 1073741824 <= i -> heap_push_has_child i n = None.
+Proof. exact heap_push_overflows. Qed.
+Print Assumptions C05_push_down_overflow_is_in_the_code.
+
+Theorem C05_collect_step_is_the_code :
+  forall f s,
+  HeapModel.collect (S f) s =
+  match heap_run_more (HeapModel.num s) with
+  | Some true =>
+      match HeapModel.sget s 1 with
+      | None => HeapModel.Crash
+      | Some t =>
+          match heap_run_root_index (HeapModel.tidx s t) with
+          | Some true => HeapModel.Fatal s
+          | Some false =>
+              if HeapModel.now s <? HeapModel.texp s t then HeapModel.Ok s else
+              match HeapModel.unregister s t with
+              | HeapModel.Ok s1 => HeapModel.collect f (HeapModel.set_idx (HeapModel.set_batch s1 (HeapModel.batch s1 ++ [t])) t 0)
+              | o => o
+              end
+          | None => HeapModel.Crash
+          end
+      end
+  | Some false => HeapModel.Ok s
+  | None => HeapModel.Crash
+  end.
+Proof. exact collect_step_is_the_code. Qed.
+Print Assumptions C05_collect_step_is_the_code.
+
+Theorem C05_soonest_is_the_code :
+  forall s,
+  HeapModel.soonest s =
+  match heap_soonest_any (HeapModel.num s) with
+  | Some true => match HeapModel.sget s 1 with Some t => Some (HeapModel.texp s t) | None => None end
+  | _ => None
+  end.
+Proof. exact soonest_is_the_code. Qed.
+Print Assumptions C05_soonest_is_the_code.
